@@ -130,7 +130,7 @@ theorem rdInv_exec_self (v : Variant) (s : St) (i : Instr) (rest : List Instr)
   have hi : rdInstr i = true := h.rs i (by rw [hs]; exact List.mem_cons_self)
   cases i <;> simp [rdInstr, cls] at hi
   case connRead =>
-    simp only [exec]
+    simp only [exec, flushBody]
     split
     · exact rdInv_single _ _ (by rw [setProg_prog, if_pos rfl]) (Or.inr rfl)
     · split
@@ -139,7 +139,7 @@ theorem rdInv_exec_self (v : Variant) (s : St) (i : Instr) (rest : List Instr)
         · exact rdInv_exit _ (by rw [setProg_prog, if_pos rfl]) rfl
         · exact h
   case rdNext =>
-    simp only [exec]
+    simp only [exec, flushBody]
     split
     · exact rdInv_single _ _ (by rw [setProg_prog, if_pos rfl]) (Or.inl rfl)
     · rename_i l more _
@@ -150,7 +150,7 @@ theorem rdInv_exec_self (v : Variant) (s : St) (i : Instr) (rest : List Instr)
       · rw [setProg_prog, if_pos rfl, getLast?_append_ne_nil _ _ (by simp), List.getLast?_singleton]
         exact Or.inr (Or.inl rfl)
   case rdExit =>
-    simp only [exec]
+    simp only [exec, flushBody]
     by_cases hr : rest = []
     · subst hr
       have hl := h.last
@@ -171,7 +171,7 @@ theorem rdInv_exec_self (v : Variant) (s : St) (i : Instr) (rest : List Instr)
         (fun j hj => by cases hj) (fun x => x)
   case delByTag tag rep caps =>
     have hne := rd_rest_ne_nil h _ rest hs (by simp) (by simp) (by simp)
-    simp only [exec]
+    simp only [exec, flushBody]
     split
     · exact rdInv_exit _ (by rw [setProg_prog, if_pos rfl]) rfl
     · refine rdInv_of_push h _ rest _ hs hne (by rw [setProg_prog, if_pos rfl]) ?_ (fun x => x)
@@ -184,7 +184,7 @@ theorem rdInv_exec_self (v : Variant) (s : St) (i : Instr) (rest : List Instr)
       · exact rdInstr_complete _ _ _ j hj
   case popCont =>
     have hne := rd_rest_ne_nil h _ rest hs (by simp) (by simp) (by simp)
-    simp only [exec]
+    simp only [exec, flushBody]
     split
     · exact rdInv_exit _ (by rw [setProg_prog, if_pos rfl]) rfl
     · rename_i k c more _
@@ -192,7 +192,7 @@ theorem rdInv_exec_self (v : Variant) (s : St) (i : Instr) (rest : List Instr)
         (fun j hj => by rw [List.mem_singleton] at hj; rw [hj]; rfl) (fun x => x)
   case closeSwap =>
     have hne := rd_rest_ne_nil h _ rest hs (by simp) (by simp) (by simp)
-    simp only [exec]
+    simp only [exec, flushBody]
     split
     · refine rdInv_of_push h _ rest
         (s.pending.flatMap (fun c => complete (s.cmd c).kind c .err) ++ [Instr.cancelOrphans (s.contReqs.map Prod.fst)])
@@ -212,26 +212,26 @@ theorem rdInv_exec_self (v : Variant) (s : St) (i : Instr) (rest : List Instr)
       exact rdInstr_complete _ _ _ j hc
   case loadDone c r =>
     have hne := rd_rest_ne_nil h _ rest hs (by simp) (by simp) (by simp)
-    simp only [exec]
+    simp only [exec, flushBody]
     exact rdInv_of_push h _ rest [Instr.send c r (s.cmd c).chanInit] hs hne (by rw [setProg_prog, if_pos rfl]; rfl)
       (fun j hj => by rw [List.mem_singleton] at hj; rw [hj]; rfl) (fun x => x)
   case cancelConts c r =>
     have hne := rd_rest_ne_nil h _ rest hs (by simp) (by simp) (by simp)
-    simp only [exec]
+    simp only [exec, flushBody]
     refine rdInv_of_push h _ rest [] hs hne (by rw [setProg_prog, if_pos rfl]; rfl)
       (fun j hj => by cases hj) (fun x => ?_)
     have e : ∀ (z : St) f, ((z.updCmd c f).setProg tReader rest).connClosed = z.connClosed := fun _ _ => rfl
     rw [e, (foldl_setCont2_conn _ _ _).1]; exact x
   case cancelOrphans ks =>
     have hne := rd_rest_ne_nil h _ rest hs (by simp) (by simp) (by simp)
-    simp only [exec]
+    simp only [exec, flushBody]
     refine rdInv_of_push h _ rest [] hs hne (by rw [setProg_prog, if_pos rfl]; rfl)
       (fun j hj => by cases hj) (fun x => ?_)
     have e : ∀ (z : St), (z.setProg tReader rest).connClosed = z.connClosed := fun _ => rfl
     rw [e, (foldl_setCont_conn _ _).1]; exact x
   all_goals
     have hne := rd_rest_ne_nil h _ rest hs (by simp) (by simp) (by simp)
-    simp only [exec]
+    simp only [exec, flushBody]
     repeat' split
     all_goals
       first
@@ -244,7 +244,7 @@ theorem exec_connClosed (v : Variant) (s : St) (t : Nat) (i : Instr) (rest : Lis
     (h : s.connClosed = true) : (exec v s t i rest).connClosed = true := by
   cases i
   case srv a =>
-    simp only [exec]
+    simp only [exec, flushBody]
     split
     · exact h
     · cases a <;> simp only [execSrv]
@@ -260,15 +260,15 @@ theorem exec_connClosed (v : Variant) (s : St) (t : Nat) (i : Instr) (rest : Lis
       case close => exact h
       case rerr => exact h
   case cancelConts c r =>
-    simp only [exec]
+    simp only [exec, flushBody]
     have e : ∀ (z : St) f, ((z.updCmd c f).setProg t rest).connClosed = z.connClosed := fun _ _ => rfl
     rw [e, (foldl_setCont2_conn _ _ _).1]; exact h
   case cancelOrphans ks =>
-    simp only [exec]
+    simp only [exec, flushBody]
     have e : ∀ (z : St), (z.setProg t rest).connClosed = z.connClosed := fun _ => rfl
     rw [e, (foldl_setCont_conn _ _).1]; exact h
   all_goals
-    simp only [exec]
+    simp only [exec, flushBody]
     repeat' split
     all_goals first | exact h | rfl
 
@@ -276,7 +276,7 @@ theorem exec_decClosed (v : Variant) (s : St) (t : Nat) (i : Instr) (rest : List
     (h : s.decClosed = true) : (exec v s t i rest).decClosed = true := by
   cases i
   case srv a =>
-    simp only [exec]
+    simp only [exec, flushBody]
     split
     · exact h
     · cases a <;> simp only [execSrv]
@@ -292,15 +292,15 @@ theorem exec_decClosed (v : Variant) (s : St) (t : Nat) (i : Instr) (rest : List
       case close => exact h
       case rerr => exact h
   case cancelConts c r =>
-    simp only [exec]
+    simp only [exec, flushBody]
     have e : ∀ (z : St) f, ((z.updCmd c f).setProg t rest).decClosed = z.decClosed := fun _ _ => rfl
     rw [e, (foldl_setCont2_conn _ _ _).2]; exact h
   case cancelOrphans ks =>
-    simp only [exec]
+    simp only [exec, flushBody]
     have e : ∀ (z : St), (z.setProg t rest).decClosed = z.decClosed := fun _ => rfl
     rw [e, (foldl_setCont_conn _ _).2]; exact h
   all_goals
-    simp only [exec]
+    simp only [exec, flushBody]
     repeat' split
     all_goals first | exact h | rfl
 
@@ -309,7 +309,7 @@ theorem exec_prog_other' (v : Variant) (s : St) (t u : Nat) (i : Instr) (rest : 
     (hu : u ≠ t) (hu2 : u ≠ idleTid t) : (exec v s t i rest).prog u = s.prog u := by
   by_cases hi : ∃ c, i = .idleGo c
   · obtain ⟨c, rfl⟩ := hi
-    simp only [exec]
+    simp only [exec, flushBody]
     split
     · rfl
     · rw [setProg_prog, if_neg hu2, setProg_prog, if_neg hu]
@@ -382,7 +382,7 @@ theorem exec_closedFlag (v : Variant) (s : St) (t : Nat) (i : Instr) (rest : Lis
   cases i
   case closeBegin => exact absurd rfl hi
   case srv a =>
-    simp only [exec]
+    simp only [exec, flushBody]
     split
     · rfl
     · cases a <;> simp only [execSrv]
@@ -398,15 +398,15 @@ theorem exec_closedFlag (v : Variant) (s : St) (t : Nat) (i : Instr) (rest : Lis
       case close => rfl
       case rerr => rfl
   case cancelConts c r =>
-    simp only [exec]
+    simp only [exec, flushBody]
     have e : ∀ (z : St) f, ((z.updCmd c f).setProg t rest).closedFlag = z.closedFlag := fun _ _ => rfl
     rw [e, foldl_setCont2_flag]
   case cancelOrphans ks =>
-    simp only [exec]
+    simp only [exec, flushBody]
     have e : ∀ (z : St), (z.setProg t rest).closedFlag = z.closedFlag := fun _ => rfl
     rw [e, foldl_setCont_flag]
   all_goals
-    simp only [exec]
+    simp only [exec, flushBody]
     repeat' split
     all_goals rfl
 
@@ -419,10 +419,10 @@ theorem closerInv_exec (v : Variant) (s : St) (t : Nat) (i : Instr) (rest : List
       fun j hj => h.instrs j (by rw [hs]; exact List.mem_cons_of_mem _ hj)
     rcases hi with e | e
     · subst e
-      simp only [exec]
+      simp only [exec, flushBody]
       exact ⟨fun j hj => by rw [setProg_prog, if_pos rfl] at hj; exact hrest j hj, Or.inl rfl, fun _ => rfl⟩
     · subst e
-      simp only [exec]
+      simp only [exec, flushBody]
       split
       · have hb : s.closedFlag = true := by
           rcases h.begun with b | b
@@ -434,7 +434,7 @@ theorem closerInv_exec (v : Variant) (s : St) (t : Nat) (i : Instr) (rest : List
       exec_prog_other' v s t tCloser i rest (fun e => ht e.symm) (by simp [tCloser, idleTid])
     by_cases hcb : i = .closeBegin
     · subst hcb
-      simp only [exec]
+      simp only [exec, flushBody]
       exact ⟨fun j hj => by rw [setProg_prog, if_neg (fun e => ht e.symm)] at hj; exact h.instrs j hj,
         Or.inl rfl, fun _ => rfl⟩
     · have hf := exec_closedFlag v s t i rest hcb
